@@ -32,7 +32,8 @@ impl Session {
             acc
         });
 
-        let expiry = UNIX_EPOCH.elapsed().unwrap().as_secs() + lifetime;
+        let now = UNIX_EPOCH.elapsed().unwrap().as_secs();
+        let expiry = now.saturating_add(lifetime);
 
         Self {
             token: token_hex,
@@ -54,6 +55,7 @@ impl Session {
 
     /// Refreshes the token, setting it to expire the given number of seconds after the current time.
     pub fn refresh(&mut self, lifetime: u64) {
-        self.expiry = UNIX_EPOCH.elapsed().unwrap().as_secs() + lifetime;
+        let now = UNIX_EPOCH.elapsed().unwrap().as_secs();
+        self.expiry = now.saturating_add(lifetime);
     }
 }
